@@ -20,7 +20,8 @@ R == Recs[i]
 
 AsSet(s) == {s[k] : k \in 1..Len(s)}
 SetOfArr(a, rv) ==
-  [replicas |-> a[3], slots |-> AsSet(a[4]), policy |-> a[5], strat |-> a[6], part |-> a[9], tmpl |-> a[10], paused |-> a[11],
+  [replicas |-> a[3], slots |-> AsSet(a[4]), policy |-> a[5],
+   strat |-> IF a[6] = "RollingUpdate" /\ ~a[7] THEN "RollingUpdateBare" ELSE a[6], part |-> a[9], tmpl |-> a[10], paused |-> a[11],
    deleting |-> a[12], histLimit |-> a[13], gen |-> a[15], rv |-> rv, nclaims |-> Len(a[18]),
    status |-> [obsGen |-> a[16][1], replicas |-> a[16][2], ready |-> a[16][3], current |-> a[16][4], updated |-> a[16][5],
                collisions |-> a[16][6], curRev |-> a[17][1], updRev |-> a[17][2]]]
@@ -71,7 +72,7 @@ StepConf(k) ==
 B_Conf == \A k \in 1..Len(Steps) : StepConf(k)
 
 Final == StOf(R.final)
-StuckS(s) == \E o \in Ords : s.api.pods[o].present /\ s.api.pods[o].phase = "Failed" /\ o \notin DesiredOf(s)
+StuckS(s) == \E o \in Ords : s.api.pods[o].present /\ s.api.pods[o].phase = "Failed" /\ o \notin DesiredOf(s) /\ s.api.set.policy = "OrderedReady"
 
 \* C02: after the fair tail the system is converged (unless the excluded case holds) and the last reconcile wrote nothing
 B_C02 == /\ (ConvergedS(Final) \/ StuckS(Final))
@@ -121,7 +122,7 @@ EquivFinal(f, g) ==
     /\ \A o \in Ords : /\ f.api.pods[o].present = g.api.pods[o].present
                        /\ f.api.pods[o].present =>
                             /\ f.api.pods[o].phase = g.api.pods[o].phase /\ f.api.pods[o].ready = g.api.pods[o].ready
-                            /\ (f.api.set.strat = "RollingUpdate" /\ o >= f.api.set.part) => TmplAt(f, o) = TmplAt(g, o)
+                            /\ (f.api.set.strat \in {"RollingUpdate", "RollingUpdateBare"} /\ o >= f.api.set.part) => TmplAt(f, o) = TmplAt(g, o)
     /\ f.api.set.status.replicas = g.api.set.status.replicas /\ f.api.set.status.ready = g.api.set.status.ready
     /\ TmplOfRevS(f, f.api.set.status.updRev) = TmplOfRevS(g, g.api.set.status.updRev)
 HasTwin(x) == DOMAIN x # {}
